@@ -71,10 +71,7 @@ def natOfDigits (ds : List Char) : Nat := evalDigits (ds.map digitVal)
 
 /-- `is >> d` (double) on the pending token -/
 def scanDQ (t : Tok) : Option (Rat × Tok) :=
-  let (neg, body) := match t with
-    | '-' :: r => (true, r)
-    | '+' :: r => (false, r)
-    | _ => (false, t)
+  let (neg, body) := splitSign t
   let (acc, rest) := accMant body false false
   -- split the accumulated text: mantissa [e exponent]
   let (mant, ex) := spanP (fun c => c != 'e') acc
